@@ -17,16 +17,17 @@ import (
 )
 
 type srvOpts struct {
-	kind      string // "server" | "rs"
-	alloc     bool
-	softClose bool   // conn.Close() does not abort a blocked Read (two one-way pipes, like stdin/stdout)
-	readOnly  bool
-	root      string // os server: directory served (requests use absolute paths below it)
-	workDir   string // os server: WithServerWorkingDirectory
-	hopt      string // rs: optional handler interfaces (see vfs.handlers)
-	startDir  string // rs: WithStartDirectory
-	maxTx     uint32
-	quiet     bool   // do not log hook events (only wire events)
+	kind          string // "server" | "rs"
+	alloc         bool
+	softClose     bool // conn.Close() does not abort a blocked Read (two one-way pipes, like stdin/stdout)
+	readOnly      bool
+	root          string // os server: directory served (requests use absolute paths below it)
+	workDir       string // os server: WithServerWorkingDirectory
+	hopt          string // rs: optional handler interfaces (see vfs.handlers)
+	startDir      string // rs: WithStartDirectory
+	maxTx         uint32
+	quiet         bool // do not log hook events (only wire events)
+	quietHandlers bool // do not log handler-level events either (final object report only)
 }
 
 func (o srvOpts) label() string {
@@ -115,6 +116,7 @@ func newSrvSession(t testing.TB, tr *tracer, o srvOpts) *srvSession {
 		s.srv = srv
 	case "rs":
 		s.v = newVfs(tr, s.gate)
+		s.v.quiet = o.quietHandlers
 		var opts []RequestServerOption
 		if o.alloc {
 			opts = append(opts, WithRSAllocator())
